@@ -50,7 +50,7 @@ static unsigned long long rs;
 static unsigned rnd() { rs ^= rs << 13; rs ^= rs >> 7; rs ^= rs << 17; return (unsigned)(rs >> 11); }
 static int spuriousBudget = 0;
 static long steps = 0, maxSteps = 100000;
-static int* prefix = 0; static int nprefix = 0; static int policy = 0; // 0 = non-preemptive (stay, else lowest id), 1 = random
+static int* prefix = 0; static int nprefix = 0; static int* devStep = 0; static int* devThread = 0; static int ndev = 0; static int policy = 0; // 0 = non-preemptive (stay, else lowest id), 1 = random
 static int lastThread = 0, sameCount = 0;
 static long clockCalls = 0; static long tickMs = 0;
 static int splitMode = 0; // 1: the code that follows a synchronisation operation (plain accesses up to the next operation) is a step of its own
@@ -110,6 +110,11 @@ static void pass_baton(int me)
     bool ok = false; for(int i = 0; i < nc; ++i) if(cand[i] == t) ok = true;
     if(!ok) finish("BADPREFIX", 8);
   }
+  if(t < 0)
+  { // sparse deviations `dev=step:thread,...`: at that step run that thread if it is enabled (otherwise the entry is ignored)
+    for(int d = 0; d < ndev; ++d) if(devStep[d] == steps) { for(int i = 0; i < nc; ++i) if(cand[i] == devThread[d]) t = devThread[d]; break; }
+  }
+  if(t >= 0) {}
   else if(policy == 1) t = cand[rnd() % nc];
   else
   { // non-preemptive default: stay on the running thread while it is enabled, but at most 64 steps in a row
@@ -237,6 +242,11 @@ void nv_result(const volatile void* p, unsigned long long value)
   pthread_mutex_lock(&G); char nb[64]; const char* n = sched_name((const void*)p, nb);
   printf("O %s %s %lld\n", th[self].akind, n, sched_value((const void*)p, value)); post(); pthread_mutex_unlock(&G);
 }
+}
+void sched_set_devs(const int* st, const int* thr, int n)
+{
+  devStep = (int*)malloc(sizeof(int) * (n + 1)); devThread = (int*)malloc(sizeof(int) * (n + 1)); ndev = n;
+  for(int i = 0; i < n; ++i) { devStep[i] = st[i]; devThread[i] = thr[i]; }
 }
 void sched_reset(unsigned long long seed, int pol, const int* pre, int npre, long maxsteps, int spurious, long tickms, int split)
 {
